@@ -532,6 +532,16 @@ pub fn def(tier: Tier) -> PropertyDef {
 		});
 		checks.push(pt(&format!("batch_{name}"), tier.pick(2500, 60000), strat, run_batch));
 	}
+	// the same laws on streams several times longer than PeriodType::MAX of the default build: the history of
+	// WithHistory is unbounded, and chunk / clone positions beyond 255 must behave like the early ones
+	let long_len = tier.pick(700usize, 2000);
+	for name in mgen::all_kind_names() {
+		if name.starts_with("MA::") {
+			continue;
+		}
+		let strat = (mgen::method_case(name, long_len), proptest::collection::vec(any::<u16>(), 0..6), any::<u16>()).prop_map(|(m, cuts, clone_at)| BatchCase { m, cuts, clone_at });
+		checks.push(pt(&format!("long_batch_{name}"), tier.pick(60, 600), strat, run_batch));
+	}
 	for k in dynm::kinds() {
 		if k.has_peek {
 			checks.push(pt(&format!("peek_{}", k.name), tier.pick(2500, 60000), mgen::method_case(k.name, max_len), run_peek));
@@ -551,7 +561,7 @@ pub fn def(tier: Tier) -> PropertyDef {
 	PropertyDef {
 		id: "C09",
 		level: "exploration",
-		rule: "Per method (44 concrete types, instantiated statically): generated valid parameters and streams of 1..200 elements, generated chunkings incl. empty chunks, generated clone points. Reference = element-wise next on a twin instance; over/call/apply in chunks, new_over/new_apply (empty input => Ok(empty)), into_fn, new_fn must return bit-identical sequences of exactly the input length; WithHistory against a Vec model (get(i) = i-th newest, iter/into_iter oldest first); WithLastValue = inner instance fed the initial value once, peek = last output; clone fed a different continuation than the original, each equal to a third instance replayed on its own history. Peekable::peek() after each next = the value just returned, for each of the 30 Peekable impls. Indicators: IndicatorConfig::over/init_fn, IndicatorInstance::over (chunked)/into_fn, clone independence. Non-trivial = >= 2 non-empty chunks and an empty one, or a clone taken at a rotated ring position; distinct by hash.",
+		rule: "Per method (44 concrete types, instantiated statically): generated valid parameters and streams of 1..200 elements (sub-checks long_batch_*: up to 700, thorough 2000, so that histories, chunk and clone positions pass PeriodType::MAX), generated chunkings incl. empty chunks, generated clone points. Reference = element-wise next on a twin instance; over/call/apply in chunks, new_over/new_apply (empty input => Ok(empty)), into_fn, new_fn must return bit-identical sequences of exactly the input length; WithHistory against a Vec model (get(i) = i-th newest, iter/into_iter oldest first); WithLastValue = inner instance fed the initial value once, peek = last output; clone fed a different continuation than the original, each equal to a third instance replayed on its own history. Peekable::peek() after each next = the value just returned, for each of the 30 Peekable impls. Indicators: IndicatorConfig::over/init_fn, IndicatorInstance::over (chunked)/into_fn, clone independence. Non-trivial = >= 2 non-empty chunks and an empty one, or a clone taken at a rotated ring position; distinct by hash.",
 		assumptions: vec!["methods with unsized input (dyn OHLCV: ADI, TR, HeikinAshi, Renko) or pair input (VWMA, Cross*; no Sequence impl for pairs) have no over/call/apply; they are covered by into_fn/new_fn/wrappers/clone".into()],
 		exhaustive: false,
 		checks,
